@@ -226,6 +226,25 @@ func runGeneric(r *Report, prop string) {
 						if acquireHelper && RetErrKind(ret) == "nil" {
 							return Stop
 						}
+						// ... or hands the caller the release itself: the function returns a closure that
+						// unlocks (`unlock := s.lockKey(k); defer unlock()`)
+						for i := range ret.Results {
+							if mc, ok := stripValue(RetVal(ret, i)).(*ssa.MakeClosure); ok {
+								if cl, ok := mc.Fn.(*ssa.Function); ok {
+									releases := false
+									Instrs(cl, func(y ssa.Instruction) {
+										if c3, ok := y.(ssa.CallInstruction); ok {
+											if _, op3, ok := lockOp(c3); ok && op3 == rel {
+												releases = true
+											}
+										}
+									})
+									if releases {
+										return Stop
+									}
+								}
+							}
+						}
 						return Hit
 					}
 					return Cont
